@@ -133,6 +133,33 @@ def corpus():
         _arr([_call('tA', [['body_read']], method='POST', form='f=tAf' + 'y' * 40, too_big=True),
               _call('tC', [['body_read']], method='POST', form='f=tCf' + 'y' * 40, too_big=True,
                     accept='application/json', pad='zzz')], 1, [[990, 0]], max_body=30),
+        # the mapping interface of the shared HeaderDict, used by two requests at once
+        _arr([_call('tA', [['hdr_append', 'X-A', 'tAa1'], ['hdr_append', 'X-A', 'tAa2'], ['see'], ['hdr_copy'], ['see'],
+                           ['hdr_update', [['X-B', 'tAu'], ['X-U', 'tAu2']]], ['hdr_del', 'X-B'], ['see']]),
+              _call('tC', [['hdr', 'X-A', 'tCh'], ['hdr_setdefault', 'X-A', 'tCd'], ['hdr_setdefault', 'X-B', 'tCd'],
+                           ['see'], ['hdr_clear', ['X-A', 'X-Never']], ['see'], ['hdr_clear'], ['see']])],
+             0, [[300, 1], [300, 0], [300, 1]]),
+        # the request's mapping interface, env-changed caches, ext attributes and listeners
+        _arr([_call('tA', [['see'], ['req_set', 'QUERY_STRING', 'n=tAn'], ['see'], ['ext'], ['see'], ['listen'], ['see']],
+                    cookie='c=tAc'),
+              _call('tC', [['ext'], ['req_set', 'HTTP_COOKIE', 'c2=tCc2'], ['see'], ['req_del'], ['listen', 'off'],
+                           ['req_set', 'CONTENT_TYPE', 'text/x-tc'], ['see']])], 1, [[400, 0], [400, 1]]),
+        # everything a handler may hand back, and the requests the framework answers by itself
+        _arr([_call('tA', [['hdr', 'X-A', 'tAh'], ['ret', 'resp_obj']]), _call('tC', [['cookie', 'k', 'tCk'], ['ret', 'gen_raises_resp']]),
+              _call('tE', [['ret', 'file']], file_wrapper=True)], 0, [[500, 1], [500, 2]]),
+        _arr([_call('tA', [['ret', 'gen_blank_first']]), _call('tC', [['ret', 'gen_bytes']]), _call('tE', [['ret', 'gen_int']])],
+             2, [[300, 0], [300, 1]]),
+        _arr([_call('tA', [['ret', 'gen_raises_exc']]), _call('tC', [['ret', 'bad_charset']]), _call('tE', [['ret', 'none']])],
+             0, [[600, 1]], cfg=['debug']),
+        _arr([_call('tA', [['ret', 'bad_charset']]), _call('tC', [['ret', 'gen_empty']])], 0, [[600, 1]], cfg=['nocatch']),
+        _arr([_call('tA', [['ret', 'loop418']]), _call('tC', [['bad_status', 'nospace']]), _call('tE', [['ret', 'resp_raise']])],
+             1, [[200, 0]]),
+        _arr([_call('tA', [], route='g405', method='POST'), _call('tC', [], route='nope404'),
+              _call('tE', [], route='h404hook')], 0, [[500, 1], [500, 2]]),
+        _arr([_call('tA', [], route='badpath'), _call('tC', [['see'], ['status', 204], ['see']]),
+              _call('tE', [['hdr', 'X-A', 'tEh'], ['see']], method='HEAD')], 0, [[500, 1], [500, 2]]),
+        _arr([_call('tA', [['see'], ['hdr', 'X-A', 'tAh']], domain=True), _call('tC', [['see']])], 0, [[500, 1]],
+             cfg=['domain']),
         dict(kind='batch', race=0, preempt=1),
         dict(kind='batch', race=1, preempt=1),
         _arr(RACE_SCENARIOS[0], 0, [[700, 1]]),
@@ -198,30 +225,35 @@ def _gen_ops(rng):
     return _ops(threads, order)
 
 
-def _gen_script(rng, tok):
+def _gen_script(rng, tok, has_form=False):
     script = []
     for _ in range(rng.randrange(1, 6)):
         r = rng.random()
-        if r < 0.35:
+        if r < 0.25:
             script.append(['see'])
-        elif r < 0.55:
+        elif r < 0.40:
             script.append(['hdr', rng.choice(['X-A', 'X-B', 'X-C']), tok + 'h%d' % rng.randrange(3)])
-        elif r < 0.65:
-            script.append(['status', rng.choice([201, 202, 404, 418])])
-        elif r < 0.75:
+        elif r < 0.48:
+            script.append(['status', rng.choice([201, 202, 404, 418, 204, 304, 797])])
+        elif r < 0.56:
             script.append(['cookie', rng.choice(['k', 'm']), tok + 'k'])
-        elif r < 0.85:
+        elif r < 0.64:
             script.append(['form_see'])
-        else:
+        elif r < 0.72:
             script.append(['copy'])
             script.append(['see'])
+        else:
+            # the mapping interfaces of response.headers / request, listeners, ext attributes
+            script.extend(sched.gen_api_actions(rng, tok, has_form))
     r = rng.random()
-    if r < 0.12:
+    if r < 0.10:
         script.append(['abort', rng.choice([400, 403, 404, 500])])
-    elif r < 0.2:
+    elif r < 0.16:
         script.append(['boom'])
-    elif r < 0.35:
+    elif r < 0.28:
         script.append(['gen', rng.randrange(1, 4)])
+    elif r < 0.50:
+        script.append(sched.gen_terminal(rng, tok))       # every other thing a handler may hand back
     else:
         script.append(['see'])
     return script
@@ -231,6 +263,7 @@ def _gen_arr(rng):
     n = rng.choice([2, 2, 2, 3])
     calls = []
     bodyerr = rng.random() < 0.3      # requests whose body cannot be read: the pre-built 400 / 413 of errors_map
+    cfg = sorted(set((['max30'] if bodyerr else []) + [c for c in ('debug', 'nocatch', 'domain') if rng.random() < 0.12]))
     for i in range(n):
         tok = 't%s' % 'ACE'[i]
         kw = dict(pad='z' * rng.choice([0, 0, 3, 11]))
@@ -244,7 +277,10 @@ def _gen_arr(rng):
             script = [['see']] * rng.randrange(0, 2) + [['hdr', 'X-A', tok + 'h']] * rng.randrange(0, 2) + [['body_read']]
             calls.append(_call(tok, script, **kw))
             continue
-        if rng.random() < 0.4:
+        if rng.random() < 0.18:
+            # requests the framework answers by itself (404 / 405 / 404-hook / undecodable path), HEAD, domain_map
+            kw.update(sched.gen_call_kind(rng, cfg, False))
+        elif rng.random() < 0.4:
             kw.update(method='POST', form='f=%sf&g=%sg' % (tok, tok) + tok[-1].lower() * rng.choice([0, 20, 45]))
             if not bodyerr and rng.random() < 0.5:
                 kw['chunked_ok'] = True        # a legal chunked upload (two-digit hex size lines)
@@ -252,9 +288,11 @@ def _gen_arr(rng):
             kw['cookie'] = 'c=%sc' % tok
         if rng.random() < 0.2:
             kw['accept'] = 'application/json'
-        calls.append(_call(tok, _gen_script(rng, tok), **kw))
+        if rng.random() < 0.1:
+            kw['file_wrapper'] = True
+        calls.append(_call(tok, _gen_script(rng, tok, 'form' in kw), **kw))
     switches = [[rng.randrange(1, 1000), rng.randrange(n)] for _ in range(rng.randrange(1, 5))]
-    return _arr(calls, rng.randrange(n), switches, max_body=30 if bodyerr else None)
+    return _arr(calls, rng.randrange(n), switches, cfg=cfg)
 
 
 def gen(rng, n):
@@ -440,9 +478,12 @@ def classify(case, obs):
     kinds = set()
     for c in case['calls']:
         for a in c['script']:
-            if a[0] in ('copy', 'abort', 'boom', 'gen', 'cookie', 'form_see', 'status', 'body_read'):
-                kinds.add(a[0])
-        for k in ('chunked_ok', 'chunked_bad', 'json_bad', 'json_nonobj', 'too_big'):
+            if a[0] in ('copy', 'abort', 'boom', 'gen', 'cookie', 'form_see', 'status', 'body_read', 'ret', 'ext', 'listen',
+                        'req_set', 'bad_status') or a[0].startswith('hdr_'):
+                kinds.add(a[0] if a[0] != 'ret' else 'ret:' + a[1])
+        if c.get('route'):
+            kinds.add(c['route'])
+        for k in ('chunked_ok', 'chunked_bad', 'json_bad', 'json_nonobj', 'too_big', 'domain', 'file_wrapper'):
             if c.get(k):
                 kinds.add(k)
     return 'arr/threads=%d/preempt=%d/%s' % (len(case['calls']), len(obs.get('switches') or []),
